@@ -1,6 +1,6 @@
 (* C11 - Givens decompositions: structural theorems about the schedules (complete enumeration). *)
 From Coq Require Import Arith List Bool.
-From OFV Require Import Model.Givens Thm.C11.Schedules.
+From OFV Require Import Model.Givens Thm.C11.Schedules Thm.C11.SchedulesF.
 Import ListNotations.
 Theorem C11_square_schedule_ok_32 :
   forallb (fun n => layers_ok (2 * (n - 1) - 1) (pairs_of_square n) && square_covers n) (seq 1 32) = true.
@@ -12,3 +12,15 @@ Proof. exact rect_schedule_ok_20. Qed.
 Theorem C11_gauss_schedule_ok_32 : forallb (fun n => layers_ok (2 * n - 1) (pairs_of_gauss n)) (seq 1 32) = true.
 Proof. exact gauss_schedule_ok_32. Qed.
 Print Assumptions C11_gauss_schedule_ok_32.
+
+(* [F] EVERY size: rotations act on adjacent columns, the rotations of one layer act on pairwise disjoint
+   column pairs, and the number of layers is the documented depth (2(n-1)-1, n-1, 2n-1) *)
+Theorem C11_square_layers_ok : forall n, 1 <= n -> layers_ok (2 * (n - 1) - 1) (pairs_of_square n) = true.
+Proof. exact square_layers_ok. Qed.
+Print Assumptions C11_square_layers_ok.
+Theorem C11_rect_layers_ok : forall m n, 1 <= m -> m <= n -> layers_ok (n - 1) (pairs_of_rect m n) = true.
+Proof. exact rect_layers_ok. Qed.
+Print Assumptions C11_rect_layers_ok.
+Theorem C11_gauss_layers_ok : forall n, layers_ok (2 * n - 1) (pairs_of_gauss n) = true.
+Proof. exact gauss_layers_ok. Qed.
+Print Assumptions C11_gauss_layers_ok.
